@@ -58,6 +58,14 @@ def scenarios(tier, rng):
             out.append(base_scenario(f"{kind}-{pname}-{j}-f{freq}m{keep}{'a' if isasync else 's'}-" +
                                      "_".join(f"{a}{str(b).strip('@')}" for a, b in sorted(kw.items())),
                                      kind, pname, pspec, full, freq, keep, isasync, [g1, g2]))
+    # a new directory together with checkpoint_frequency=0: nothing may be created there
+    for kind, pname in (("VI", "forest"), ("RVI", "hendrix")):
+        pspec, full = P[pname]
+        out.append(base_scenario(f"{kind}-{pname}-new-dir-with-frequency-0", kind, pname, pspec, full, 1, 2, False,
+                                 [{"ops": [{"op": "new"}, {"op": "solve", "k": 4}, {"op": "wait"}, {"op": "list", "dir": "@A"}]},
+                                  {"ops": [{"op": "list", "dir": "@A"}, restore_op(full, new_dir="@B", freq=0), {"op": "solve", "k": 3},
+                                           {"op": "wait"}, {"op": "list", "dir": "@B"}, {"op": "list", "dir": "@A"}],
+                                   "check_unchanged_A": True}]))
     # all overrides at once, distinct values, passed positionally in the documented order
     for kind, pname in (("VI", "forest"), ("PI", "de_moor")):
         pspec, full = P[pname]
